@@ -44,6 +44,15 @@ CHECKS = {
              "property fixes one; seeded sampling.",
         technique="deterministic simulation: seeded operation/fault histories vs reference model, ddmin replay files",
         ref="DESIGN.md section 4 (C24)"),
+    "C25": dict(
+        text="Seeded simulation of store/get histories on a real ResultCache over a pool of live caller-owned frames, "
+             "with injected in-place mutation of owned objects (stored res, data_map members, returned copies) and "
+             "pickle restarts, against a reference map keyed by content specs taken at call time; three-valued key "
+             "relation (identical / differ / grey). Exploration level: histories and data maps are sampled.",
+        note="Trusts pandas construction/mutation of small frames and the harness' cell-level content spec; grey-zone "
+             "keys (dtype, index, -0.0, None vs NaN) are don't-care; hash collisions not searched.",
+        technique="deterministic simulation: seeded store/get/alias-mutation/restart histories vs reference map",
+        ref="DESIGN.md section 4 (C25)"),
 }
 
 
